@@ -10,7 +10,7 @@
    primitive steps prim = mkdir / create / append chunk / unlink / rename / rmdir / chtimes; every store
                           operation is `prims op st : list prim`, running an operation = folding its prims,
                           a crash state = folding a prefix (plus a torn last append)  -- C07
-   store operations op  = Open / Write / Close (compaction) / Update / Rename / RemoveOld (RemoveAll) / Touch
+   store operations op  = Open / Write / Close (compaction via <f>.tmp + rename) / Update / Rename / RemoveOld (RemoveAll) / Touch
    queries              = FindByRequestID, ReadStatusToday (latest, today filter optional), ReadStatusRecent n,
                           the last two through the status cache of the asking process.
 
@@ -326,9 +326,18 @@ Definition glob (st : fs) (dirpat filepat : string) : gres :=
   end.
 
 Definition ts_of (e : fent) : string := find_ts (fpath (e_dir e) (e_name e)).
-(* filterLatest(files, n): sort.Slice by timestamp(file) descending (insertion sort: stable), first n *)
+(* dropCompacted (eb925d1): a match is dropped when some match m ends in _c.dat and TrimSuffix(m, _c.dat) + .dat is its path *)
+Definition has_suffix (s suf : string) : bool :=
+  Nat.leb (String.length suf) (String.length s) && String.eqb (drop (String.length s - String.length suf) s) suf.
+Definition orig_of (p : string) : option string :=
+  if has_suffix p "_c.dat" then Some (take (String.length p - 6) p ++ ".dat") else None.
+Definition drop_compacted (l : list fent) : list fent :=
+  filter (fun e => negb (existsb (fun m => match orig_of (fpath (e_dir m) (e_name m)) with
+                                           | Some o => String.eqb o (fpath (e_dir e) (e_name e))
+                                           | None => false end) l)) l.
+(* filterLatest(files, n): dropCompacted, then sort.Slice by timestamp(file) descending (insertion sort: stable), first n *)
 Definition filter_latest (l : list fent) (n : nat) : list fent :=
-  firstn n (map snd (sort_desc fst (map (fun e => (ts_of e, e)) l))).
+  firstn n (map snd (sort_desc fst (map (fun e => (ts_of e, e)) (drop_compacted l)))).
 
 (* the patterns are built from the ESCAPED directory and prefix (8ffc003) *)
 Definition dirpat (d : string) : string := esc_glob (dirname d).
@@ -410,13 +419,22 @@ Inductive op :=
 | ORemoveOld (d : string) (cutoff : Z)            (* cutoff = now - retention; RemoveAll: cutoff = now *)
 | OTouch (d stamp r8 : string) (c : bool) (t : Z).   (* os.Chtimes on one history file (environment) *)
 
+(* writer.open (32b069b): MkdirAll, OpenOrCreateFile (O_APPEND), and - when the file is not empty and its last byte is not a
+   newline (a previous writer was killed inside a line) - one newline, so that the next status starts on its own line *)
+Definition wopen (st : fs) (dir fn : string) (now : Z) : list prim :=
+  [PMkdir dir; PCreate dir fn now]
+  ++ match get_file st dir fn with
+     | Some f => match ftail f with TNone => [] | _ => [PAppend dir fn CNl now] end
+     | None => []
+     end.
+
 Definition glob_list (st : fs) (d : string) : list fent :=
   match glob st (dirpat d) (pat_all d) with GOk l => l | GErr => [] end.
 
 Definition prims (o : op) (h : hstate) : list prim :=
   let st := hfs h in
   match o with
-  | OOpen d stamp req now => [PMkdir (dirname d); PCreate (dirname d) (fname d stamp (trunc8 req) false) now]
+  | OOpen d stamp req now => wopen st (dirname d) (fname d stamp (trunc8 req) false) now
   | OWrite tag size now =>
       match hwr h with
       | Some w => match w_fd w with
@@ -434,16 +452,20 @@ Definition prims (o : op) (h : hstate) : list prim :=
               match parse f with
               | None => []
               | Some pl =>
+                  (* eb925d1: the copy is written as <f>.tmp (removed first, so it starts empty), closed, renamed to <f>, then
+                     the original is removed *)
                   let fnc := trim_ext (w_name w) ++ "_c.dat" in
-                  [PMkdir (w_dir w); PCreate (w_dir w) fnc now] ++ map (fun c => PAppend (w_dir w) fnc c now) (chunks_of pl)
-                  ++ [PUnlink (w_dir w) (w_name w)]
+                  let tmp := fnc ++ ".tmp" in
+                  [PUnlink (w_dir w) tmp; PMkdir (w_dir w); PCreate (w_dir w) tmp now]
+                  ++ map (fun c => PAppend (w_dir w) tmp c now) (chunks_of pl)
+                  ++ [PRename (w_dir w) tmp (w_dir w) fnc; PUnlink (w_dir w) (w_name w)]
               end
           end
       | None => []
       end
   | OUpdate d req tag size now =>
       match q_find st d req with
-      | FFound dir fn _ => [PMkdir dir; PCreate dir fn now]
+      | FFound dir fn _ => wopen st dir fn now
                            ++ map (fun c => PAppend dir fn c now) (chunks_of {| p_req := req; p_tag := tag; p_size := size |})
       | _ => []
       end
